@@ -7,7 +7,9 @@ import (
 	"encoding/json"
 	"errors"
 	"fmt"
+	"net/http"
 	"net/http/httptest"
+	"strings"
 	"os"
 	"path/filepath"
 	"strconv"
@@ -74,6 +76,7 @@ type outcome struct {
 	Kind string `json:"kind"` // cacheable | uncacheable | fail-error | fail-nil | fail-panic
 	TTL  int    `json:"ttl,omitempty"`
 	RID  int    `json:"rid,omitempty"`
+	Body int    `json:"body,omitempty"` // 0 plain, 1 compressible, 2 undecodable gzip
 }
 
 func (o outcome) coq() string {
@@ -122,11 +125,13 @@ type world struct {
 
 var labelName = map[cache.Status]string{cache.StatusFetching: "LFetching", cache.StatusHitForPass: "LHitForPass", cache.StatusHit: "LHit", cache.StatusPassed: "LPassed", cache.StatusUnknown: "LUnknown"}
 
+// the response identity travels in a header so that it survives whatever the
+// cache does to the body variants
 func ridOf(resp *cache.HTTPResponse) int {
-	if resp == nil || len(resp.RawBody) < 2 || resp.RawBody[0] != 'r' {
+	if resp == nil || resp.Header == nil {
 		return -1
 	}
-	n, err := strconv.Atoi(string(resp.RawBody[1:]))
+	n, err := strconv.Atoi(resp.Header.Get("X-Rid"))
 	if err != nil {
 		return -1
 	}
@@ -134,7 +139,24 @@ func ridOf(resp *cache.HTTPResponse) int {
 }
 
 func mkResp(rid int) *cache.HTTPResponse {
-	return &cache.HTTPResponse{StatusCode: 200, RawBody: []byte(fmt.Sprintf("r%d", rid))}
+	h := http.Header{}
+	h.Set("X-Rid", strconv.Itoa(rid))
+	return &cache.HTTPResponse{StatusCode: 200, Header: h, RawBody: []byte(fmt.Sprintf("r%d", rid))}
+}
+
+// mkRespKind: body shapes that exercise Cacheable's pre-compress step
+func mkRespKind(rid int, kind int) *cache.HTTPResponse {
+	r := mkResp(rid)
+	switch kind {
+	case 1: // compressible text: gzip + br variants are produced when stored
+		r.Header.Set("Content-Type", "text/html")
+		r.RawBody = []byte(strings.Repeat("hello pike ", 8))
+	case 2: // labelled gzip but not a gzip stream, compressible type: Compress() fails when stored
+		r.Header.Set("Content-Type", "text/html")
+		r.RawBody = nil
+		r.GzipBody = []byte("this is not a gzip stream at all")
+	}
+	return r
 }
 
 func (w *world) arrive(pass bool) {
@@ -154,11 +176,11 @@ func (w *world) arrive(pass bool) {
 		o := <-th.release
 		switch o.Kind {
 		case "cacheable":
-			server.VerifSetHTTPResp(c, mkResp(o.RID))
+			server.VerifSetHTTPResp(c, mkRespKind(o.RID, o.Body))
 			server.VerifSetHTTPCacheMaxAge(c, o.TTL)
 			return nil
 		case "uncacheable":
-			server.VerifSetHTTPResp(c, mkResp(o.RID))
+			server.VerifSetHTTPResp(c, mkRespKind(o.RID, o.Body))
 			return nil
 		case "fail-nil":
 			server.VerifSetHTTPCacheMaxAge(c, 60)
@@ -371,11 +393,11 @@ func runCase(t *testing.T, rnd *hx.Rand, caseNo int, nops int, withStore bool, i
 		genOutcome := func() outcome {
 			switch rnd.Intn(10) {
 			case 0, 1, 2, 3, 4:
-				o := outcome{Kind: "cacheable", TTL: []int{1, 2, 3, 5}[rnd.Intn(4)], RID: nextRID}
+				o := outcome{Kind: "cacheable", TTL: []int{1, 2, 3, 5}[rnd.Intn(4)], RID: nextRID, Body: []int{0, 0, 1, 2}[rnd.Intn(4)]}
 				nextRID++
 				return o
 			case 5, 6:
-				o := outcome{Kind: "uncacheable", RID: nextRID}
+				o := outcome{Kind: "uncacheable", RID: nextRID, Body: []int{0, 1, 2}[rnd.Intn(3)]}
 				nextRID++
 				return o
 			case 7:
